@@ -17,8 +17,10 @@
 // Output lines:
 //   NEW root addr depthCost ownCost otherCost | ADD ... | SET ... | PEND h | UNPEND h | WRITE ... | READ ... | NOP
 //   G ok|bad hash            result of Book::getPosition on one node (sanity check)
-//   S n  followed by n node lines:  hash depth nm ecw ecb pew peb move score time state
-//                                   nch (move child)* npar (move parent)*
+//   S n k x  followed by k node lines (the nodes whose state differs from the previous dump; the
+//            book has n nodes) and x hashes of nodes that disappeared:
+//                        hash depth nm ecw ecb pew peb move score time state
+//                        nch (move child)* npar (move parent)*
 // Mode "negate": prints BookNode::negateScore(s) for every 16-bit s.
 // Mode "cyclic": imports one game with 104 reversible plies (half-move clock >= 100 makes the
 // book hash periodic) in a forked child and reports whether the process survives.
@@ -56,6 +58,7 @@ public:
     static std::unordered_map<U64, Position> posOf;             // our own position store
     static std::unordered_map<U64, std::vector<HM>> preds;      // child hash -> (book parent, move)
     static std::vector<U64> pendingList;
+    static std::unordered_map<U64, std::string> lastLine;     // node text of the previous dump
     static U64 salt;
     static std::string tmpFile;
 
@@ -100,32 +103,59 @@ public:
         return out;
     }
 
-    static void dumpState() {
-        std::vector<U64> keys;
-        for (const auto& e : book->bookNodes)
-            keys.push_back(e.first);
-        std::sort(keys.begin(), keys.end());
-        printf("S %zu\n", keys.size());
-        for (U64 h : keys) {
-            const BookNode* n = book->bookNodes[h].get();
-            printf("%" PRIu64 " %d %d %d %d %d %d %d %d %u %d", n->getHashKey(), n->getDepth(),
-                   n->getNegaMaxScore(), n->getExpansionCostWhite(), n->getExpansionCostBlack(),
-                   n->getPathErrorWhite(), n->getPathErrorBlack(),
-                   (int)n->getBestNonBookMove().getCompressedMove(), (int)n->getSearchScore(),
-                   (unsigned)n->getSearchTime(), (int)n->getState());
-            printf(" %zu", n->getChildren().size());
-            for (const auto& c : n->getChildren())
-                printf(" %d %" PRIu64, (int)c.first, c.second->getHashKey());
-            std::vector<HM> ps;
-            for (const auto& p : n->getParents())
-                ps.push_back(HM(p.parent->getHashKey(), p.compressedMove));
-            std::sort(ps.begin(), ps.end(), [](const HM& a, const HM& b) {
-                return a.second != b.second ? a.second < b.second : a.first < b.first; });
-            printf(" %zu", ps.size());
-            for (const HM& p : ps)
-                printf(" %d %" PRIu64, (int)p.second, p.first);
-            printf("\n");
+    /** Complete state of one node as text. */
+    static std::string nodeLine(const BookNode* n) {
+        char buf[256];
+        snprintf(buf, sizeof buf, "%" PRIu64 " %d %d %d %d %d %d %d %d %u %d", n->getHashKey(), n->getDepth(),
+                 n->getNegaMaxScore(), n->getExpansionCostWhite(), n->getExpansionCostBlack(),
+                 n->getPathErrorWhite(), n->getPathErrorBlack(),
+                 (int)n->getBestNonBookMove().getCompressedMove(), (int)n->getSearchScore(),
+                 (unsigned)n->getSearchTime(), (int)n->getState());
+        std::string s(buf);
+        snprintf(buf, sizeof buf, " %zu", n->getChildren().size());
+        s += buf;
+        for (const auto& c : n->getChildren()) {
+            snprintf(buf, sizeof buf, " %d %" PRIu64, (int)c.first, c.second->getHashKey());
+            s += buf;
         }
+        std::vector<HM> ps;
+        for (const auto& p : n->getParents())
+            ps.push_back(HM(p.parent->getHashKey(), p.compressedMove));
+        std::sort(ps.begin(), ps.end(), [](const HM& a, const HM& b) {
+            return a.second != b.second ? a.second < b.second : a.first < b.first; });
+        snprintf(buf, sizeof buf, " %zu", ps.size());
+        s += buf;
+        for (const HM& p : ps) {
+            snprintf(buf, sizeof buf, " %d %" PRIu64, (int)p.second, p.first);
+            s += buf;
+        }
+        return s;
+    }
+
+    /** Dump the state of EVERY node of the book; nodes whose text did not change since the
+     *  previous dump are not repeated (the driver keeps the previous text of each node):
+     *  "S <#nodes> <#changed> <#removed>", the changed node lines, the removed hashes. */
+    static void dumpState() {
+        std::vector<std::string> changed;
+        std::vector<U64> removed;
+        for (const auto& e : lastLine)
+            if (!book->bookNodes.count(e.first))
+                removed.push_back(e.first);
+        for (U64 h : removed)
+            lastLine.erase(h);
+        for (const auto& e : book->bookNodes) {
+            std::string l = nodeLine(e.second.get());
+            auto it = lastLine.find(e.first);
+            if (it == lastLine.end() || it->second != l) {
+                lastLine[e.first] = l;
+                changed.push_back(l);
+            }
+        }
+        printf("S %zu %zu %zu\n", book->bookNodes.size(), changed.size(), removed.size());
+        for (const std::string& l : changed)
+            printf("%s\n", l.c_str());
+        for (U64 h : removed)
+            printf("%" PRIu64 "\n", h);
         fflush(stdout);
     }
 
@@ -171,7 +201,7 @@ public:
 
     static void opBook(int dc, int oc, int xc, U64 s) {
         book.reset(new Book("", dc, oc, xc));
-        order.clear(); posOf.clear(); preds.clear(); pendingList.clear();
+        order.clear(); posOf.clear(); preds.clear(); pendingList.clear(); lastLine.clear();
         salt = s;
         Position start = TextIO::readFEN(TextIO::startPosFEN);
         registerPos(start);
@@ -523,6 +553,7 @@ std::vector<U64> BookBuildTest::order;
 std::unordered_map<U64, Position> BookBuildTest::posOf;
 std::unordered_map<U64, std::vector<HM>> BookBuildTest::preds;
 std::vector<U64> BookBuildTest::pendingList;
+std::unordered_map<U64, std::string> BookBuildTest::lastLine;
 U64 BookBuildTest::salt = 0;
 std::string BookBuildTest::tmpFile;
 
